@@ -949,6 +949,7 @@ class Exec(Verifier):
     def frame_obligations(self, label, modifies, targets, h0map, alloc0, props, kind="frame"):
         """For every heap map that differs from `h0map`: it may differ only where `modifies` allows, or at objects that
         were not allocated in the reference state (fresh objects are invisible to the caller / the previous iteration)."""
+        goals, keys = [], []
         for k, term in list(self.st.heap.items()):
             h0 = h0map.get(k, self._init_heap.get(k))
             if h0 is None or term.get_id() == h0.get_id():
@@ -956,14 +957,17 @@ class Exec(Verifier):
             allowed = self.frame_allowed(k, modifies, targets)
             if allowed is None:
                 continue
+            keys.append(k)
             if not (z3.is_array(term) and term.sort().domain() == Ref):
-                self.oblige("%s frame: %s is not modified" % (label, k), kind, term == h0, props)
+                goals.append(term == h0)
                 continue
             r = self.fresh("r", Ref)
             guard = [z3.Select(alloc0, r)] + [r != a for a in allowed]
-            what = "changes only at the listed objects" if allowed else "is not modified (except at objects allocated meanwhile)"
-            self.oblige("%s frame: %s %s" % (label, k, what), kind,
-                        z3.ForAll([r], z3.Implies(AND(*guard), z3.Select(term, r) == z3.Select(h0, r))), props)
+            goals.append(z3.ForAll([r], z3.Implies(AND(*guard), z3.Select(term, r) == z3.Select(h0, r))))
+        if goals:
+            # one obligation per exit / iteration (the conjunction over the heap maps that changed); pyvc.explain splits it
+            self.oblige("%s frame: nothing outside `modifies` changes (%d heap maps: %s)" % (label, len(keys), ", ".join(sorted(keys))[:160]),
+                        kind, AND(*goals) if len(goals) > 1 else goals[0], props, nosplit=True)
 
     def _in_modifies(self, hkey, modifies):
         for m in modifies:
